@@ -3,14 +3,17 @@ import astq
 from rules import a64hsem, aes, argon, cgsize, driver, dsinit, jit, jitcross, portable, rv64, rvhsem, spec, sshash, vmcfg, x86hsem
 
 LEVEL = 'other'
-TECHNIQUE = 'exhaustive flag-to-class dispatch check, frozen-table check of every dataset-address composition site, per-engine v1/v2 gate enumeration, abstract interpretation of the hand-written dataset-read fragments, sibling agreement rules of C04 / C08 / C10 / C12'
+TECHNIQUE = ('exhaustive flag-to-class dispatch check, frozen-table check of every dataset-address composition site, per-engine v1/v2 gate enumeration, abstract interpretation of the hand-written dataset-read fragments, sibling agreement rules of C04 / C08 / C10 / C12'
+         '; symbolic translation validation of the integer register-form handlers: known-bits execution of the emitter for constant instruction fields, decoding of the emitted code, application to a register file of terms over r0..r7, comparison of normal forms with the terms of specification 5.2 (x86-64 via objdump, A64, RV64 scalar and vector)')
 CLAIM = ('Decides statically the structural conditions under which all configurations run the same computation: the 16 flag combinations select the class whose template arguments equal the flag bits; the dataset item address '
          'is composed exactly once per engine x mode; every engine gates the same five v1/v2 decision points on its own flag copy (kept in sync); the hand-written x86 dataset-read fragments implement the v1/v2 mp alias (abstract interpretation); '
          'software and hardware AES paths have identical round structure; dataset initialisation writes exactly the requested items whichever initialiser runs; the Argon2 implementations share their addressing skeleton; '
          'the x86 emitter agrees with the interpreter on opcode map, marks, masks and immediates. Equality of the 256-bit results is numeric and not claimed.'
-         ' Also: BIND-EXCL; ISUB_R immediate handling (IMM-NEG) in all four JIT back-ends including the RV64 vector generator, whose opcode table and last-writer marking are compared with the interpreter as well; the non-int128 mulh / smulh / rotr / rotl (PORT-INT: canonical form, bit-routing proof, or a concrete counterexample).')
+         ' Also: BIND-EXCL; ISUB_R immediate handling (IMM-NEG) in all four JIT back-ends including the RV64 vector generator, whose opcode table and last-writer marking are compared with the interpreter as well; the non-int128 mulh / smulh / rotr / rotl (PORT-INT: canonical form, bit-routing proof, or a concrete counterexample).'
+         ' The integer register-form handlers of all four code generators are validated against specification 5.2 by symbolic execution of the code they emit (X86-HSEM, A64-HSEM, RV-HSEM x2); the RVV generator binds the n-th reciprocal literal to the slot it stored it in (RVV-RCPPOOL).')
 LEVEL_NOTE = 'Trusted: clang AST, assembled object of the x86 runtime; semantics of emitted machine code; numeric equality of engines.'
-EXPLANATION = 'VM-DISPATCH, DS-COMPOSE, V2-GATES, DS-ASM-MP, FLAG-PROP, DRV-SEQ/SIB, SPEC-LOOP, AES-SWITCH/AES-ASM, RACE-RANGE, DS-INITSEL, A2-DISPATCH/A2-SKELETON, TAB-OPC/LW-SIB/MEM-JITMASK/IMM-ENC. BIND-EXCL, IMM-NEG x4, TAB-OPC / LW-SIB for the RVV generator, PORT-INT, DS-RANGE-EVAL.'
+EXPLANATION = ('VM-DISPATCH, DS-COMPOSE, V2-GATES, DS-ASM-MP, FLAG-PROP, DRV-SEQ/SIB, SPEC-LOOP, AES-SWITCH/AES-ASM, RACE-RANGE, DS-INITSEL, A2-DISPATCH/A2-SKELETON, TAB-OPC/LW-SIB/MEM-JITMASK/IMM-ENC. BIND-EXCL, IMM-NEG x4, TAB-OPC / LW-SIB for the RVV generator, PORT-INT, DS-RANGE-EVAL.'
+         ' X86-HSEM, A64-HSEM, RV-HSEM (scalar, vector), RVV-RCPPOOL.')
 
 
 def run(ctx, R):
